@@ -255,8 +255,8 @@ pub(super) fn load_styles<R: Read + std::io::Seek>(
         .find(|n| n.has_tag_name("borders"))
         .ok_or_else(|| XlsxError::Xml("Missing <borders> in styles.xml".to_string()))?;
     for border in border_nodes.children() {
-        let diagonal_up = get_bool_false(border, "diagonal_up");
-        let diagonal_down = get_bool_false(border, "diagonal_down");
+        let diagonal_up = get_bool_false(border, "diagonalUp");
+        let diagonal_down = get_bool_false(border, "diagonalDown");
         let left = get_border(border, "left", theme, indexed)?;
         let right = get_border(border, "right", theme, indexed)?;
         let top = get_border(border, "top", theme, indexed)?;
